@@ -27,6 +27,9 @@ KeyCertVecs ==
                  B("BuildKeyTypePayload", [st |-> st, ct |-> ct], "payload") >>])
   \o SeqMap(LAMBDA fn : One(B(fn, [st |-> 0, ct |-> 0], "convenience")),
             << "NewEd25519X25519KeyCertificate", "NewECDSAP256KeyCertificate", "NewECDSAP384KeyCertificate", "NewDSAElGamalKeyCertificate", "NewRedDSAX25519KeyCertificate" >>)
+  \* a payload set BEFORE the key types is superseded by them (the builder documents that the last call wins)
+  \o Cross2(<< << 7, 4 >>, << 0, 0 >>, << 11, 4 >>, << 1, 0 >> >>, << 0, 4, 40 >>, LAMBDA p, n :
+       One(B("CertificateBuilder", [st |-> p[1], ct |-> p[2], payload |-> Fill(n, 3), payloadfirst |-> TRUE], "builder-payload-then-keytypes")))
   \o << One(B("NewKeyCertificateWithTypes", [st |-> -1, ct |-> 0], "negative")), One(B("NewKeyCertificateWithTypes", [st |-> 7, ct |-> 65536], "toolarge")),
         One(B("BuildKeyTypePayload", [st |-> 65536, ct |-> 0], "toolarge")) >>
 
